@@ -51,21 +51,25 @@ def ty(name, is_ref):
     return ("&" if is_ref else "") + name
 
 
-def build(name, op, base, rhs_self, requested, generic=False):
+def build(name, op, base, rhs_self, requested, generic=False, spell_self=False):
     """base = ('bin', lref, rref) or ('assign', rref)"""
     tr, fn, code = op
     rname = "A" if rhs_self else "B"
     tag_r = "0xA" if rhs_self else "0xB"
     req = ", ".join(requested)
     desc = "op=%s base=%s rhs=%s requested=%s" % (tr, "/".join(str(x) for x in base), rname, "+".join(requested))
-    sig = "%s|%s|%s|%s" % (tr, "-".join(str(int(x)) if isinstance(x, bool) else x for x in base), rname, "+".join(requested))
+    sig = "%s|%s|%s|%s" % (tr, "-".join(str(int(x)) if isinstance(x, bool) else x for x in base), rname + ("(spelled Self)" if spell_self else ""), "+".join(requested))
+    desc += " spelled-Self=%s" % spell_self
     src = e1.HEADER.format(pid=PID, name=name, desc=desc)
     src += TYPES + ("" if rhs_self else TYPE_B) + HELPERS + "\n"
     body = []
     if base[0] == "bin":
         _, bl, br = base
+        rtxt = ty(rname, br)
+        if spell_self:
+            rtxt = {(False, False): "Self", (False, True): "&Self", (True, True): "Self"}[(bl, br)]
         src += "#[derive_ex(%s)]\nimpl core::ops::%s<%s> for %s {\n    type Output = A;\n    fn %s(self, rhs: %s) -> A {\n        trace_push(%d, self.0, rhs.0);\n        A(wop(%d, self.0, rhs.0))\n    }\n}\n\n" % (
-            req, tr, ty(rname, br), ty("A", bl), fn, ty(rname, br), code, code)
+            req, tr, rtxt, ty("A", bl), fn, rtxt, code, code)
         body += ["    let xa = s.u8();", "    let yb = s.u8();", "    let want = wop(%d, xa, yb);" % code]
         if tr in requested:
             for l in (False, True):
@@ -99,8 +103,11 @@ def build(name, op, base, rhs_self, requested, generic=False):
                 body += ["    }"]
     else:
         _, br = base
+        rtxt = ty(rname, br)
+        if spell_self:
+            rtxt = "&Self" if br else "Self"
         src += "#[derive_ex(%s)]\nimpl core::ops::%sAssign<%s> for A {\n    fn %s_assign(&mut self, rhs: %s) {\n        trace_push(%d, self.0, rhs.0);\n        self.0 = wop(%d, self.0, rhs.0);\n    }\n}\n\n" % (
-            req, tr, ty(rname, br), fn, ty(rname, br), code, code)
+            req, tr, rtxt, fn, rtxt, code, code)
         body += ["    let xa = s.u8();", "    let yb = s.u8();", "    let want = wop(%d, xa, yb);" % code,
                  "    {", "        let x = A(xa);", "        let y = %s(yb);" % rname, "        trace_reset();",
                  "        let r: A = core::ops::%s::%s(x, %sy);" % (tr, fn, "&" if br else ""),
@@ -165,7 +172,7 @@ pub fn check<S: Src>(s: &mut S) {
 """
 
 
-def build_generic(name, op, bl, br, requested, self_in_output):
+def build_generic(name, op, bl, br, requested, self_in_output, self_where_on_ref=False):
     tr, fn, code = op
     req = ", ".join(requested)
     if not bl and not br:
@@ -196,9 +203,12 @@ def build_generic(name, op, bl, br, requested, self_in_output):
                      '        assert!(ok(%d, xa, yb, %d), "%s-calls-and-clones");' % (code, n, tagn), "    }"]
     desc = "generic op=%s base=%s/%s requested=%s Self-in-Output=%s" % (tr, bl, br, "+".join(requested), self_in_output)
     src = e1.HEADER.format(pid=PID, name=name, desc=desc)
-    src += GENERIC % dict(req=req, tr=tr, rhs=rhs, self=selfty, wself="Self" if not bl else "G<T>", wsized="Self" if not bl else "G<T>", out=out, fn=fn, rhsty=rhsty, code=code, body="\n".join(body))
+    src += GENERIC % dict(req=req, tr=tr, rhs=rhs, self=selfty, wself="Self" if not bl else "G<T>", wsized="Self" if (not bl or self_where_on_ref) else "G<T>", out=out, fn=fn, rhsty=rhsty, code=code, body="\n".join(body))
     src += e1.harness(unwind=6)
-    return kani_runner.Program(name, src, "generic|%s|%d%d|%s|%s" % (tr, bl, br, "+".join(requested), self_in_output), desc, True)
+    sig = "generic|%s|%d%d|%s|%s" % (tr, bl, br, "+".join(requested), self_in_output)
+    if self_where_on_ref:
+        sig = "generic|Self-in-where-clause-of-base-impl-on-&T"
+    return kani_runner.Program(name, src, sig, desc, True)
 
 
 def run(tier):
@@ -227,6 +237,14 @@ def run(tier):
     progs = []
     for op, (base, rhs_self, req) in cands:
         progs.append(build("p%05d" % len(progs), op, base, rhs_self, [r.format(op[0]) for r in req]))
+    # the Rhs argument written as `Self` / `&Self`
+    sops = OPS if tier == "thorough" else [OPS[9], OPS[rnd.randrange(9)]]
+    for op in sops:
+        for base in (("bin", False, False), ("bin", False, True), ("bin", True, True), ("assign", False), ("assign", True)):
+            for req in ((["{}"], ["{}Assign"], ["{}", "{}Assign"]) if base[0] == "bin" else (["{}"],)):
+                progs.append(build("p%05d" % len(progs), op, base, True, [r.format(op[0]) for r in req], spell_self=True))
+    # known limitation probe: `Self` in the where-clause of a base impl on `&T`
+    progs.append(build_generic("p%05d" % len(progs), OPS[9], True, True, ["Sub"], True, self_where_on_ref=True))
     gops = OPS if tier == "thorough" else [OPS[9], OPS[rnd.randrange(9)]]
     for op in gops:
         for bl, br in ((False, False), (True, True), (False, True), (True, False)):
